@@ -21,6 +21,7 @@ import (
 	"os"
 
 	"github.com/go-viper/mapstructure/v2"
+	"github.com/knadh/koanf/maps"
 	"github.com/knadh/koanf/providers/confmap"
 	"github.com/knadh/koanf/v2"
 )
@@ -87,7 +88,19 @@ func (c *configLoader) Load(config any) error {
 	}
 
 	if err := loadAndMergeConfig(func() (*koanf.Koanf, error) {
-		return koanfFromEnv(c.o.envPrefix)
+		konf, err := koanfFromEnv(c.o.envPrefix)
+		if err != nil {
+			return nil, err
+		}
+
+		// the keys of list elements defined via environment variables are paths (a.b.c).
+		// These denote nested structures and have to be available as such
+		nested := koanf.New(".")
+		if err = nested.Load(confmap.Provider(unflatten(konf.Raw()), ""), nil); err != nil {
+			return nil, err
+		}
+
+		return nested, nil
 	}); err != nil {
 		return err
 	}
@@ -121,4 +134,30 @@ func (c *configLoader) configFile() (string, error) {
 	}
 
 	return "", nil
+}
+
+// unflatten converts all keys of the given map, which are paths (a.b.c), into nested structures.
+func unflatten(data map[string]any) map[string]any {
+	result := maps.Unflatten(data, ".")
+
+	for key, val := range result {
+		result[key] = unflattenValue(val)
+	}
+
+	return result
+}
+
+func unflattenValue(val any) any {
+	switch typed := val.(type) {
+	case map[string]any:
+		return unflatten(typed)
+	case []any:
+		for idx, elem := range typed {
+			typed[idx] = unflattenValue(elem)
+		}
+
+		return typed
+	default:
+		return val
+	}
 }
